@@ -89,6 +89,8 @@ class Model:
         self.rep = 'A'
         self.okrep = 'A'
         self.dead_seqs = set()
+        self.husks = set()           # ids of sequence objects that were moved from (only destruction / assignment is legal)
+        self.tomb = -1               # next id for a dead sequence whose wrapper id is being reused by an assignment
 
     # ---- helpers ---------------------------------------------------------------------------
     def cost_in_seq(self, e, sid):
@@ -227,7 +229,53 @@ class Model:
             x.p[key] = val
         pred.trig.add('lr_mutation')
 
+    def _rename_seq(self, old, new):
+        q = self.seqs.pop(old)
+        q.id = new
+        self.seqs[new] = q
+        for e in self.exps.values():
+            if old in e.seqs:
+                e.seqs = [new if x == old else x for x in e.seqs]
+                if old in e.reg:
+                    e.reg[new] = e.reg.pop(old)
+
+    def _bury(self, s):
+        # wrapper id s is about to name another sequence: expectations that still name the dead one keep it under a
+        # tombstone id of its own
+        for e in self.exps.values():
+            if s in e.deadseq:
+                t = self.tomb
+                e.seqs = [t if x == s else x for x in e.seqs]
+                e.deadseq[t] = e.deadseq.pop(s)
+                e.reg.pop(s, None)
+                e.reg[t] = False
+        self.tomb -= 1
+
+    def op_mvseq(self, pred, new, old):
+        # sequence new(std::move(old)): the sequence itself (its registered expectations, its progress) lives on
+        # under the new object; the old object is an empty husk
+        self._rename_seq(old, new)
+        self.husks.add(old)
+        pred.trig.add('seq_moved')
+        pred.ctx.add('seq')
+
+    def op_asseq(self, pred, dst, src):
+        # dst = std::move(src): what dst held is destroyed exactly as by its destructor, then as a move construction
+        if dst in self.husks:
+            self.husks.discard(dst)
+        else:
+            self.op_rmseq(pred, dst)
+        self._bury(dst)
+        self._rename_seq(src, dst)
+        self.husks.add(src)
+        pred.trig.add('seq_move_assigned')
+        pred.ctx.add('seq')
+
     def op_rmseq(self, pred, s):
+        if s in self.husks:
+            self.husks.discard(s)        # a moved-from sequence object owns nothing
+            pred.trig.add('seq_husk_destroyed')
+            return
         q = self.seqs.pop(s)
         self.dead_seqs.add(s)
         if q.entries:
@@ -609,6 +657,8 @@ class Model:
         m.tracers = list(self.tracers)
         m.rep, m.okrep = self.rep, self.okrep
         m.dead_seqs = set(self.dead_seqs)
+        m.husks = set(self.husks)
+        m.tomb = self.tomb
         return m
 
     def key(self):
